@@ -69,6 +69,7 @@ class Spec:
         self.running = False
         self.n = 0
         self.depth = 0
+        self.clock = 0
 
     # ---- handles
     def yields(self, h):
@@ -165,7 +166,24 @@ class Spec:
                 rq = nxt
         raise Hang()
 
-    def frame(self, reading, acts, first):
+    def pact(self, a):
+        """what a processor does: user code, or a direct (non-raising) call of the loop's own API —
+        the texts say nothing special about those: `loop.switch(...)` makes the handle's world the
+        current one and enters it at once (no events of its own, the frame goes on, the world left
+        stays live as after a raised SwitchWorld), the next iteration processes the current world;
+        a newly assigned time function is the one read from then on."""
+        k = a[0]
+        if k == 'lswitch':
+            self.loop_switch(SwitchRequest(int(a[1]), bool(int(a[2])), bool(int(a[3]))))
+        elif k == 'setclock':
+            self.clock = int(a[1])
+        elif k == 'peek':
+            self.out.append(f'peek {self.current.name if self.current else "None"}')
+        else:
+            self.act(a)
+
+    def frame(self, readings, acts, first):
+        reading = readings[self.clock]
         dt = 0 if first else reading - self.prev
         self.prev = reading
         w = self.current
@@ -176,12 +194,12 @@ class Spec:
             self.out.append(f'proc {w.name} {p} {dt}')
             a = acts[p] if p < len(acts) else ['none']
             if kind == 'p':
-                self.act(a)
+                self.pact(a)
             elif kind == 'u':
                 self.send(w, 'on_update', str(dt))
             elif p not in w.dead:
                 try:
-                    self.act(a)
+                    self.pact(a)
                 except Hang:
                     raise
                 except Exception:
@@ -192,9 +210,9 @@ class Spec:
         self.running = True
         first = True
         try:
-            for reading, acts in frames:
+            for reading, alt, acts in frames:
                 try:
-                    self.frame(reading, acts, first)
+                    self.frame((reading, alt), acts, first)
                 except SwitchRequest as rq:
                     self.serve(rq)
                 first = False
@@ -305,6 +323,7 @@ def c14_predicate(lines, obs):
     Which world is the loop's *current* world is read from the implementation itself (the `tick`
     lines record `loop.current_world` when the clock is read, the `do` lines when user code is about
     to quit / raise / switch) — which instance a switch must enter is C13's business, not C14's.
+      * the clock is read through the time function the loop has *now* (`time-function`);
       * every clock reading of a start is followed by exactly one process() call, on the world that
         is current at that moment (`once-per-iteration`, `process-target`), with dt = 0 for the
         first reading of the start and the difference to the previous reading afterwards (`dt`);
@@ -337,6 +356,9 @@ def c14_predicate(lines, obs):
                 tick, frame, last_do = (k, None, 'end'), None, None
                 continue
             f = _fields(t)
+            if f.get('fn') != f.get('installed'):
+                return bad('time-function', k, f'the clock was read through time function {f.get("fn")} while '
+                           f'loop.time_function is time function {f.get("installed")}')
             if tick is not None and tick[1] is not None:
                 prev_reading = tick[1]
             tick, frame, last_do = (k, int(t[1]), f['current']), None, None
